@@ -101,6 +101,7 @@ var (
 	alts   = map[string][]alt{} // per function: the two most recent calls with distinct arguments
 	recent []alt                // the most recent calls of two distinct functions
 	nCalls int
+	kept   = map[int]*nasType.MobileIdentity5GS{} // refill: one long-lived element per contents length
 )
 
 func fill(e *Ev) {
@@ -360,8 +361,6 @@ func mi(wire []int) *nasType.MobileIdentity5GS {
 // refill: ONE long-lived element per contents length, refilled IN PLACE through the library's own setter before every
 // reading (the element of a message that is kept and updated): a rendering is a function of the element's present octets,
 // whatever was rendered from the same element before.
-var kept = map[int]*nasType.MobileIdentity5GS{}
-
 func refill(wire []int) *nasType.MobileIdentity5GS {
 	a := kept[len(wire)]
 	if a == nil {
